@@ -51,6 +51,10 @@ func (r *Run) invoke(fr *Frame, st *State, instr ssa.Instruction, cc *ssa.CallCo
 		site = fnName(fr.fn) + ":" + site
 	}
 	if cc.IsInvoke() {
+		// a method call on a nil interface value panics
+		if fnv != nil && fnv.K == KIface && fnv.T != "" && !(isLit(fnv.T) && fnv.T != "0") && fnv.Box == nil {
+			r.safety(fr, st, "nil", instr, not(app("=", fnv.T, "0")))
+		}
 		all := append([]*Val{fnv}, args...)
 		if ct := r.eng.C.ByName[name]; ct != nil {
 			return r.applyContract(fr, st, instr, ct, name, site, all, sig)
